@@ -148,4 +148,67 @@ REGISTRY = {
         technique='typestate protocol rule + decision-table extraction by abstract interpretation',
         rule='R-STREAM protocol clauses; R-DISPATCH per mode-switch code class; R-PANIC obligations of the byte parser',
     ),
+    'C10': dict(
+        modules=['rules_screen'], entry='run_c10',
+        explanation=('D1 R-FRAME - the transitive may-write set of display() on Screen is empty (so two histories that differ only in display() calls execute '
+                     'identical stores). D2 R-ABSENT - in every function that touches the grid, (a) every entry().or_insert*() materialises the canonical default '
+                     '(empty row / default_char()), (b) for every Option-returning lookup on the grid that is branched on, the absent-branch touches every key the '
+                     'present-branch stores: absence and a materialised default are indistinguishable to later operations. D3 - display() iterates rows 0..lines and '
+                     'columns 0..columns in ascending Range order. NOT decided: the produced strings for every grid (wide-character skipping depends on unicode-width data).'),
+        level_text='Purity by may-write analysis plus representation-independence of the sparse grid by comparing the present/absent continuations of every lookup; a relation between pairs of histories reduced to per-site structural obligations.',
+        not_decided='Not decided: the rendered strings themselves (unicode-width values).',
+        technique='interprocedural may-write analysis + branch-footprint comparison over abstractly interpreted paths',
+        rule='R-FRAME(display); R-ABSENT per materialisation site and per branched lookup; R-RENDER loop ranges',
+    ),
+    'C05': dict(
+        modules=['rules_screen'], entry='run_c05',
+        explanation=('D1 R-FRAME - the 11 cursor operations may write only cursor.x / cursor.y. D3 R-ZERO1 - for every count/coordinate parameter the abstract path set '
+                     'with Some(0) equals the one with None (both mean 1). D5 R-PLT - on every exit state of every partition the final (x, y) equals the documented closed '
+                     'form (CUU max(y-n, top), CUD min(y+n, bottom), CUF min(x+n, columns-1), CUB (min(x, columns-1)) -. n, CHA/VPA/CUP clamps, origin mode relative to and '
+                     'confined in the region, CUP outside the region ignored), proved by enumerating the orderings of the min/max/saturating atoms. Dispatch of the finals is C03. '
+                     'NOT decided: paths on which the origin-mode flag is undecided are compared under both values only where the code tests it.'),
+        level_text='Closed-form equivalence of the final cursor terms over all states and parameters (piecewise-linear, decided by ordering enumeration), frames by may-write analysis.',
+        not_decided='', technique='abstract interpretation + piecewise-linear term equivalence (E7) + may-write frames',
+        rule='R-FRAME per operation; R-ZERO1 per (operation, parameter, partition); R-PLT per operation over all exit states',
+    ),
+    'C13': dict(
+        modules=['rules_screen'], entry='run_c13',
+        explanation=('D1 R-FRAME {buffer, dirty}; R-FOOT every cell operation is on the cursor row at a column >= the cursor column; R-GRID every stored column key is < columns '
+                     '(nothing is parked beyond the right edge, so nothing can come back - the inductive form of "discarded characters never reappear"); R-ZERO1 0 == absent; '
+                     'R-ABSENT present/absent branches agree; R-BLANK stored blanks are default_char() or moved cells (attributes travel with the moved value); R-PANIC. '
+                     'NOT decided: the exact shift map as a permutation (covered by footprint + bounds + value provenance, not by a closed form).'),
+        level_text='Footprint, key-bound and provenance obligations on every symbolic grid operation of ICH/DCH, for all states and counts.',
+        not_decided='', technique='abstract interpretation: symbolic footprint + key-bound obligations',
+        rule='per operation site: R-FOOT, R-GRID, R-BLANK; per lookup: R-ABSENT; per partition: R-ZERO1',
+    ),
+    'C07': dict(
+        modules=['rules_screen'], entry='run_c07',
+        explanation=('R-FRAME {buffer, dirty}; R-NOREAD erase operations read neither margins nor mode (region / origin mode cannot restrict them); absent selector == 0 and zero count == absent '
+                     '(path-set equality); R-FOOT every stored cell lies in the documented range for the selector of its path (EL0 [x,..), EL1 [..,x], EL2 row; ED adds rows below / above / all; '
+                     'ECH [x, x+n)); R-GRID column keys < columns (EL1 at the pending-wrap column); R-BLANK the stored value is the cursor rendition; unsupported selectors change no cell; R-PANIC. '
+                     'NOT decided: must-footprint (that every cell of the range is written) is implied only by the loop ranges, not separately proven.'),
+        level_text='May-footprint of every symbolic cell store against the documented range per selector, plus frames, key bounds and value provenance.',
+        not_decided='Must-coverage of the full range is not separately proven.', technique='abstract interpretation: symbolic footprint + may-read/may-write analysis',
+        rule='per site R-FOOT/R-GRID/R-BLANK; per partition R-ZERO1; R-FRAME/R-NOREAD per function',
+    ),
+    'C06': dict(
+        modules=['rules_screen'], entry='run_c06',
+        explanation=('R-FRAME per operation; R-REKEY index/reverse_index scroll iff the cursor is on the bottom/top margin, leave cursor.y alone when scrolling, rebuild every row of the new map from '
+                     'the documented source row (inside the region: neighbour row, outside: itself, vacated margin row: blank) and otherwise move the cursor by one clamped to the margin; '
+                     'IL/DL touch only rows in [cursor row, bottom] with the cursor inside the region and return the carriage; R-GRID no row key >= lines; R-ABSENT absent source rows are handled like blank ones; '
+                     'R-DIRTY; R-ZERO1; DECSTBM: CSI r removes the region, an accepted region homes the cursor (acceptance rule I3 is C09). NOT decided: cell-level equality with a reference for every state.'),
+        level_text='Row re-keying map, region confinement and sparse-row handling decided on the symbolic row operations for all regions, cursor rows and counts.',
+        not_decided='', technique='abstract interpretation: symbolic row re-keying / footprint obligations',
+        rule='R-REKEY per row store; R-FOOT per IL/DL row operation; R-ABSENT per lookup; R-GRID/R-DIRTY per site',
+    ),
+    'C17': dict(
+        modules=['rules_screen'], entry='run_c17',
+        explanation=('R-DIRTY - on every explored path piece (to a function exit or a loop back edge) of every function that touches the grid, each row that is written (cell or row stored/removed, '
+                     'write through an element reference, whole-buffer replacement) is covered by a dirty mark on that path (single row or range containing it); inside a loop a written row may stay '
+                     'pending only while it is the current cursor row, and the exit paths then mark the cursor row. Screen-wide operations (reset, alignment display, scroll, resize, DECSCNM through either '
+                     'spelling) mark 0..lines. R-DIRTYBOUND - every index put into the set is < lines and a shrink prunes it. Over-approximates "changed" by "written" (sound for the property).'),
+        level_text='Ghost-state covering argument over all abstract paths: written rows vs dirty marks compared symbolically in the zone domain.',
+        not_decided='Minimality of the dirty set is not required by the property.', technique='abstract interpretation with a ghost written/marked relation',
+        rule='R-DIRTY per write site and per screen-wide operation; R-DIRTYBOUND per mark site',
+    ),
 }
